@@ -44,9 +44,11 @@ ValRange == (IF Full THEN -700..700 ELSE -300..300) \cup (32768 - 300..32768 + 3
 Operands == /\ ph = 1 /\ ph' = 2
             /\ a' \in CASE kind = "val" -> ValRange
                         [] kind = "rat" -> (IF Full THEN -1100..1100 ELSE -300..300)
-                        [] kind = "cond" /\ ~Full -> Bnd(ty)
+                        [] kind = "cond" -> (IF Full THEN ValsA(ty) ELSE Bnd(ty))
                         [] OTHER -> ValsA(ty)
-            /\ b' \in CASE kind \in {"binop", "cond"} -> ValsB(ty) [] kind = "rat" -> {1, 2, 4, 8} [] OTHER -> {0}
+            /\ b' \in CASE kind = "binop" -> ValsB(ty)
+                        [] kind = "cond" -> (IF Full THEN Bnd(ty) ELSE BndB(ty))
+                        [] kind = "rat" -> {1, 2, 4, 8} [] OTHER -> {0}
             /\ UNCHANGED <<kind, op, ty, ty2>>
 Next == PickBinop \/ PickUnop \/ PickCast \/ PickCond \/ PickVal \/ PickRat \/ Operands
 
